@@ -488,6 +488,12 @@ def universal_layout(rnd, W=None, tag="universal random struct"):
                 f.arg_order = rnd.choice(["sra", "asr", "rsa", "ars", "sar"])
             elif rnd.random() < 0.1:
                 f.arg_order = "ars"
+            if rnd.random() < 0.2:
+                f.doc = f"field number {idx}: documentation is forwarded to the accessors"
+            if rnd.random() < 0.06:
+                kw = rnd.choice(["type", "match", "loop", "struct", "fn"])
+                if kw not in [x.name for x in fields]:
+                    f.name, f.raw_ident = kw, True
             used |= set(pos)
             fields.append(f)
             break
@@ -496,12 +502,17 @@ def universal_layout(rnd, W=None, tag="universal random struct"):
     dflt = None
     r = rnd.random()
     if r < 0.35:
-        dflt = ("lit", rnd.getrandbits(W) | 1, rnd.choice(["hex", "hex", "dec"]))
+        dflt = ("lit", rnd.getrandbits(W) | 1, rnd.choice(["hex", "hex", "dec", "bin", "hex_", "oct"]))
     elif r < 0.5:
         dflt = ("const", rnd.getrandbits(W) | (1 << (W - 1)))
     L = Layout(W, fields, default=dflt, aux=aux, tag=tag + f" on u{W}", legacy=(rnd.random() < 0.12))
     if dflt and dflt[0] == "const":
         L.const_name = rnd.choice(CONST_NAMES)
+    L.vis = rnd.choice(["pub", "pub", "pub(crate)", ""])
+    if rnd.random() < 0.2:
+        L.derives = rnd.choice(["PartialEq, Eq", "Debug, PartialEq", "Debug"])
+    if dflt and rnd.random() < 0.15:
+        L.trailing_comma = True
     if not L.rule_valid():
         return universal_layout(rnd, W, tag)
     return L
